@@ -61,6 +61,33 @@ def race_family():
     return out
 
 
+def twice_family():
+    """ONE activity holding two registrations on the same object at once: receiving from a channel / queue inside the body of an
+    iteration over the same stream (also a nested iteration), waiting for the flag that guards the enclosing until block,
+    borrowing twice from one supply - next to a second consumer and with the stream closed, the task cancelled or closed"""
+    out = []
+    for stream in ('Channel', 'Queue'):
+        inners = {'get': [['TRY', [['GET', 'ch']]]], 'iter1': [['ITER', 'ch', 1, []]], 'get-delay': [['D', 1], ['TRY', [['GET', 'ch']]]]}
+        for iname, inner in inners.items():
+            for nmsg in (2, 3, 4):
+                for gap in (0, 1):
+                    for volatile in (False, True):
+                        prod = [x for i in range(nmsg) for x in ([['D', 1]] if gap and i else []) + [['TRY', [['PUT', 'ch', 'm%d' % i]]]]]
+                        kids = [['DO', 'c1', [['ITER', 'ch', None, inner], ['PROBE', 'now']]] + ([{'volatile': True}] if volatile else []),
+                                ['DO', 'c2', [['ITER', 'ch', None, []]]],
+                                ['DO', 'p', [['D', 1]] + prod],
+                                ['D', 4], ['TRY', [['CLOSE', 'ch']]]]
+                        out.append({'objs': {'ch': stream}, '_nops': 60, '_family': 'twice',
+                                    'roots': [['root', [['SCOPE', 'm', kids], ['PROBE', 'now']]]]})
+    for hold in (0, 1):
+        kids = [['DO', 'v', [['UNTIL', 'u', ['F', 'B'], [['WAIT', ['F', 'B']], ['D', 1]]], ['PROBE', 'now']]],
+                ['DO', 'b', [['BORROW', 'r', {'a': 1}, [['BORROW', 'r', {'a': 1}, [['D', hold]]], ['D', hold]]], ['PROBE', 'levels', 'r']]],
+                ['DO', 'h', [['D', 1], ['SET', 'B', True]]], ['D', 3]]
+        out.append({'objs': {'B': 'Flag', 'r': ['Resources', {'a': 2}]}, '_nops': 60, '_family': 'twice',
+                    'roots': [['root', [['SCOPE', 'm', kids], ['PROBE', 'now']]]]})
+    return out
+
+
 def BOUNDS(tier):
     return {'quick': {'strides': dict(FAMILIES), 'deviations': '1; 2 on programs with <= 12 activations'},
             'thorough': {'strides': {k: max(1, v // 6) for k, v in FAMILIES}, 'deviations': '1; 2 on programs with <= 25 activations'}}[tier]
@@ -93,6 +120,7 @@ def cases(tier):
             q['_family'] = 'c01'
             out.append(q)
     out += race_family()
+    out += twice_family()
     return out
 
 
